@@ -15,7 +15,10 @@
      (write_unpack leaves the container unchanged); `sendable` excludes it;
    - verifyPacket's random job number for Job = 0 is not modelled; `sendable` excludes it;
    - notifier.accept (job bookkeeping) and the key exchange are outside the model;
-   - pick: the channel-mode cases and the random re-key packet are outside the model. *)
+   - pick: the channel-mode cases and the random re-key packet are outside the model;
+   - key material: next() sends a picked own packet with FlagCrypt alone (modelled); what the peer's
+     key machinery does with the payload of such a packet is outside the model (`queueable`
+     admits FlagCrypt packets with an empty payload only). *)
 From XMT Require Import Base.Prelude.
 
 (* ---- constants ----------------------------------------------------------- *)
@@ -239,6 +242,9 @@ Definition session_next (c : conf) (st : state) : option tx * state :=
   | (Some n0, q) =>
     let n := match c_ptags c with Some t => set_tags n0 t | None => n0 end in
     if is_nil q && is_own (c_own c) n then (Some (TSingle (norm (c_own c) n)), mkS [] None 0)
+    (* KeyCrypt: a picked packet of our own that carries key material is sent alone; the rest of the
+       queue stays queued and state.Last is NOT reset on this path *)
+    else if f_crypt (p_fl n) && is_own (c_own c) n then (Some (TSingle (norm (c_own c) n)), mkS q None (s_last st))
     else
       let t := p_tags n in
       if 0 <? s_last st then
@@ -363,12 +369,14 @@ Definition deliveries (l : list step) : list dlv := flat_map st_dlv l.
 
 (* ---- specification side ------------------------------------------------------ *)
 (* what Session.next removes because the peer abandoned group l: the leading run of packets
-   of that group (a lone packet of our own is sent anyway) *)
-Definition abandon (i l : Z) (q : list packet) : list packet :=
+   of that group (a lone packet of our own is sent anyway; so is a picked packet of our own that
+   carries key material, and then group l stays abandoned for the call after it) *)
+Fixpoint abandon (i l : Z) (q : list packet) : list packet :=
   match q with
   | [] => []
   | n :: r =>
     if is_nil r && is_own i n then q
+    else if f_crypt (p_fl n) && is_own i n then n :: abandon i l r
     else if 0 <? l then
       match skip_group l n r with (n1, q1) => if f_group (p_fl n1) =? l then [] else n1 :: q1 end
     else q
@@ -381,11 +389,15 @@ Definition tag_ok (t : Z) : bool := (0 <? t) && (t <? 4294967296).
 
 (* what a session can have in its queue (and where the model is faithful): not a container or
    oneshot, a fragment carries a count (or is a drop / re-register notice), the job number is
-   assigned (verifyPacket draws a random one for Job 0), tags are valid, the length is a length *)
+   assigned (verifyPacket draws a random one for Job 0), tags are valid, the length is a length;
+   a packet flagged as key material (FlagCrypt) is modelled without payload only: the payload of
+   such a packet is read by the peer's key machinery (Listener.notify -> keyCryptAndUpdate, C06),
+   it is not data for the handlers *)
 Definition queueable (p : packet) : bool :=
   negb (f_multi (p_fl p)) && negb (f_mdev (p_fl p)) && negb (f_oneshot (p_fl p)) &&
   (negb (f_frag (p_fl p)) || (1 <=? f_len (p_fl p)) || (p_id p =? SvDrop) || (p_id p =? SvRegister)) &&
   ((1 <=? p_job p) || f_proxy (p_fl p) || (p_id p <? 2)) &&
+  (negb (f_crypt (p_fl p)) || (p_len p =? 0)) &&
   forallb tag_ok (p_tags p) && (0 <=? p_len p).
 (* ... and fits a fragment (C02 guarantees it for what Session.write queues) *)
 Definition sendable (F : Z) (p : packet) : bool := queueable p && (psize p <=? F).
